@@ -79,6 +79,8 @@
 //! assert_eq!(b.get(4), 1);
 //! ```
 
+#![allow(unexpected_cfgs)]
+
 use crate::prelude::*;
 use crate::traits::bit_field_slice::{panic_if_out_of_bounds, panic_if_value};
 use crate::utils::{transmute_boxed_slice, transmute_vec};
@@ -1224,6 +1226,8 @@ where
         let bit_index = pos % W::BITS;
         let bits = self.bits.as_ref();
 
+        #[cfg(sux_verif)]
+        ::verif_rt::sched_point(4);
         if bit_index + self.bit_width <= W::BITS {
             (bits.get_unchecked(word_index).load(order) >> bit_index) & self.mask
         } else {
@@ -1258,8 +1262,12 @@ where
 
         if bit_index + self.bit_width <= W::BITS {
             // this is consistent
+            #[cfg(sux_verif)]
+            ::verif_rt::sched_point(5);
             let mut current = bits.get_unchecked(word_index).load(order);
             loop {
+                #[cfg(sux_verif)]
+                ::verif_rt::sched_point(6);
                 let mut new = current;
                 new &= !(self.mask << bit_index);
                 new |= value << bit_index;
@@ -1273,10 +1281,14 @@ where
                 }
             }
         } else {
+            #[cfg(sux_verif)]
+            ::verif_rt::sched_point(7);
             let mut word = bits.get_unchecked(word_index).load(order);
             // try to wait for the other thread to finish
             fence(Ordering::Acquire);
             loop {
+                #[cfg(sux_verif)]
+                ::verif_rt::sched_point(8);
                 let mut new = word;
                 new &= (W::ONE << bit_index) - W::ONE;
                 new |= value << bit_index;
@@ -1298,9 +1310,13 @@ where
             // should try to syncronize the threads as much as possible
             compiler_fence(Ordering::SeqCst);
 
+            #[cfg(sux_verif)]
+            ::verif_rt::sched_point(9);
             let mut word = bits.get_unchecked(word_index + 1).load(order);
             fence(Ordering::Acquire);
             loop {
+                #[cfg(sux_verif)]
+                ::verif_rt::sched_point(10);
                 let mut new = word;
                 new &= !(self.mask >> (W::BITS - bit_index));
                 new |= value >> (W::BITS - bit_index);
